@@ -151,6 +151,11 @@ async fn side_conditions<S: Storage>(cluster: &Cluster<S>, when: &str, out: &mut
 }
 
 pub struct ExecCfg {
+    /// one more choice point at the start: some node is unreachable (every request to it is
+    /// refused) until a chosen later moment; it then learns everything through repair
+    pub allow_unreachable_node: bool,
+    /// minutes by which each node's wall clock reading is ahead when it issues an operation
+    pub skew_minutes: Vec<u64>,
     /// concurrency block only: step background tasks one poll at a time for every pair (always
     /// done for repair races)
     pub fine_grained: bool,
@@ -219,9 +224,25 @@ where
     }
     let n = cfg.n_nodes;
     let mut payload_counter = 0u32;
+    // an unreachable node: which one (0 = none) and after which operation it comes back
+    let mut down: Option<usize> = None;
+    let mut back_after = 0usize;
+    if cfg.allow_unreachable_node {
+        let c = chooser.borrow_mut().choose(1 + n);
+        if c > 0 {
+            down = Some(c - 1);
+            back_after = chooser.borrow_mut().choose(ops.len().max(1));
+            datacake_rpc::verif::set_reachable(crate::world::node_addr(c as NodeId), false);
+            out.events.push(format!("node{} is unreachable from the start", c - 1));
+        }
+    }
 
     for (oi, op) in ops.iter().enumerate() {
         wall.tick();
+        let skew = cfg.skew_minutes.get(op.node).copied().unwrap_or(0);
+        if skew > 0 {
+            wall.advance(std::time::Duration::from_secs(skew * 60));
+        }
         let node = &cluster.nodes[op.node];
         let mut payload = |k: Key| {
             payload_counter += 1;
@@ -239,6 +260,16 @@ where
             Kind::RepairFrom(_) => Err("repair clients exist in the concurrency block only".to_string()),
         };
         vkit::e2::settle().await;
+        if skew > 0 {
+            wall.rewind(std::time::Duration::from_secs(skew * 60));
+        }
+        if let Some(d) = down {
+            if oi == back_after {
+                datacake_rpc::verif::set_reachable(crate::world::node_addr(d as NodeId + 1), true);
+                out.events.push(format!("node{d} becomes reachable again"));
+                down = None;
+            }
+        }
         out.events.push(format!("op {}: {} -> {}", oi, op_json(op).to_string_compact(), if res.is_ok() { "Ok".to_string() } else { res.unwrap_err() }));
         if cfg.check_side_conditions_every_event {
             side_conditions(&cluster, &format!("after op {oi}"), &mut out).await;
@@ -282,6 +313,10 @@ where
         }
     }
 
+    if let Some(d) = down {
+        datacake_rpc::verif::set_reachable(crate::world::node_addr(d as NodeId + 1), true);
+        out.events.push(format!("node{d} becomes reachable again"));
+    }
     end_phase(cfg, &mut cluster, &wall, &chooser, &mut out).await;
     out
 }
@@ -507,6 +542,8 @@ pub fn case_json(cfg: &ExecCfg, ops: &[OpSpec], run: &Run, out: &Outcome) -> J {
         .set("concurrent", out.concurrent)
         .set("lose_all_direct", cfg.lose_all_direct)
         .set("fine_grained", cfg.fine_grained)
+        .set("allow_unreachable_node", cfg.allow_unreachable_node)
+        .set("skew_minutes", cfg.skew_minutes.clone())
         .set("prelude", J::Arr(cfg.prelude.iter().map(op_json).collect()))
         .set("events", out.events.clone())
         .set("reads", J::Arr(out.reads.iter().map(docs_json).collect()))
@@ -573,6 +610,7 @@ pub fn judge(cfg: &ExecCfg, ops: &[OpSpec], run: &Run, out: &Outcome, st: &mut S
         st.seen("outcomes", fp128(&format!("{:?}", out.reference.iter().map(|(k, (_, b))| (k, b)).collect::<Vec<_>>())));
     }
     st.seen("event_traces", fp128(&out.events));
+    st.add("events_executed", out.events.len() as u64);
 }
 
 pub fn op_alphabet(n_nodes: usize, levels: &[Consistency]) -> Vec<OpSpec> {
@@ -617,12 +655,12 @@ pub fn run(tier: Tier) -> i32 {
     let mut summary = vkit::e2::Summary::default();
     let mut blocks_json = Vec::new();
 
-    let two = |mem| ExecCfg { fine_grained: false, prelude: vec![], lose_all_direct: false, n_nodes: 2, mem_store: mem, allow_restart: true, check_side_conditions_every_event: false };
+    let two = |mem| ExecCfg { allow_unreachable_node: false, skew_minutes: vec![], fine_grained: false, prelude: vec![], lose_all_direct: false, n_nodes: 2, mem_store: mem, allow_restart: true, check_side_conditions_every_event: false };
     let mut blocks: Vec<Block> = Vec::new();
     let al2 = op_alphabet(2, &[Consistency::None, Consistency::All]);
     let al2_thin: Vec<OpSpec> = al2.iter().copied().filter(|o| !(o.level == Consistency::All && matches!(o.kind, Kind::Put(2) | Kind::Del(2)))).collect();
     let al3 = op_alphabet(3, &[Consistency::None, Consistency::All]);
-    let three = |restart| ExecCfg { fine_grained: false, prelude: vec![], lose_all_direct: false, n_nodes: 3, mem_store: false, allow_restart: restart, check_side_conditions_every_event: false };
+    let three = |restart| ExecCfg { allow_unreachable_node: false, skew_minutes: vec![], fine_grained: false, prelude: vec![], lose_all_direct: false, n_nodes: 3, mem_store: false, allow_restart: restart, check_side_conditions_every_event: false };
     if tier.is_thorough() {
         blocks.push(Block { name: "N=2, 2 operations, <=3 deviations", cfg: two(false), histories: sequences(&al2, 2), bound: 3 });
         blocks.push(Block { name: "N=2, 3 operations, <=2 deviations", cfg: two(false), histories: sequences(&al2, 3), bound: 2 });
@@ -632,11 +670,30 @@ pub fn run(tier: Tier) -> i32 {
         blocks.push(Block { name: "N=3, 2 operations (None/One/All), <=2 deviations", cfg: three(true), histories: sequences(&al3o, 2), bound: 2 });
         let al3n: Vec<OpSpec> = al3.iter().copied().filter(|o| !matches!(o.kind, Kind::Put(2) | Kind::Del(2))).collect();
         blocks.push(Block { name: "N=3, 3 operations (one key + bulk), <=1 deviation", cfg: three(false), histories: sequences(&al3n, 3), bound: 1 });
+        let mut lagging = three(true);
+        lagging.allow_unreachable_node = true;
+        blocks.push(Block { name: "N=3, 2 operations, one node unreachable until a chosen moment, <=3 deviations", cfg: lagging, histories: sequences(&al3, 2), bound: 3 });
+        let mut lagging3 = three(false);
+        lagging3.allow_unreachable_node = true;
+        blocks.push(Block { name: "N=3, 3 operations (one key + bulk), one node unreachable, <=2 deviations", cfg: lagging3, histories: sequences(&al3n, 3), bound: 2 });
+        for skew in [vec![0u64, 30], vec![30, 0]] {
+            let mut skewed = two(true);
+            skewed.mem_store = false;
+            skewed.skew_minutes = skew;
+            blocks.push(Block { name: "N=2, 3 operations, one clock 30 min ahead, <=1 deviation", cfg: skewed, histories: sequences(&al2, 3), bound: 1 });
+        }
     } else {
         blocks.push(Block { name: "N=2, 2 operations, <=2 deviations", cfg: two(false), histories: sequences(&al2, 2), bound: 2 });
         blocks.push(Block { name: "N=2, 3 operations (thinned), <=1 deviation", cfg: two(false), histories: sequences(&al2_thin, 3), bound: 1 });
         blocks.push(Block { name: "N=2, 2 operations, <=1 deviation, MemStore", cfg: two(true), histories: sequences(&al2, 2), bound: 1 });
         blocks.push(Block { name: "N=3, 2 operations, <=1 deviation", cfg: three(true), histories: sequences(&al3, 2), bound: 1 });
+        let mut lagging = two(false);
+        lagging.allow_restart = false;
+        lagging.allow_unreachable_node = true;
+        blocks.push(Block { name: "N=2, 2 operations, one node unreachable until a chosen moment (it joins after deletes happened), <=2 deviations", cfg: lagging, histories: sequences(&al2, 2), bound: 2 });
+        let mut skewed = two(false);
+        skewed.skew_minutes = vec![0, 30];
+        blocks.push(Block { name: "N=2, 2 operations, node1's clock 30 min ahead, <=1 deviation", cfg: skewed, histories: sequences(&al2, 2), bound: 1 });
     }
 
     for b in &blocks {
@@ -700,7 +757,7 @@ pub fn run(tier: Tier) -> i32 {
 
     // ---- concurrency block
     {
-        let ccfg = ExecCfg { fine_grained: tier.is_thorough(), prelude: vec![], lose_all_direct: false, n_nodes: 2, mem_store: false, allow_restart: false, check_side_conditions_every_event: false };
+        let ccfg = ExecCfg { allow_unreachable_node: false, skew_minutes: vec![], fine_grained: tier.is_thorough(), prelude: vec![], lose_all_direct: false, n_nodes: 2, mem_store: false, allow_restart: false, check_side_conditions_every_event: false };
         let base = op_alphabet(2, &[Consistency::None, Consistency::All]);
         let mut pairs: Vec<Vec<OpSpec>> = Vec::new();
         for a in &base {
@@ -718,10 +775,12 @@ pub fn run(tier: Tier) -> i32 {
         }
         let before = summary.executions;
         let conc_bound = std::env::var("VERIF_C01_CONC_BOUND").ok().and_then(|v| v.parse().ok()).unwrap_or(tier.pick(3usize, 5));
-        let lossy = ExecCfg { fine_grained: false, prelude: vec![], lose_all_direct: true, n_nodes: 2, mem_store: false, allow_restart: false, check_side_conditions_every_event: false };
+        let lossy = ExecCfg { allow_unreachable_node: false, skew_minutes: vec![], fine_grained: false, prelude: vec![], lose_all_direct: true, n_nodes: 2, mem_store: false, allow_restart: false, check_side_conditions_every_event: false };
         // the repair races additionally start from a keyspace that already exists at the source
         // and has not been synchronised yet (otherwise the repairing node would not fetch it)
         let with_prelude = |base: &ExecCfg| ExecCfg {
+            allow_unreachable_node: false,
+            skew_minutes: vec![],
             fine_grained: false,
             prelude: vec![OpSpec { node: 1, kind: Kind::Put(2), level: Consistency::None }],
             lose_all_direct: base.lose_all_direct,
@@ -792,9 +851,10 @@ pub fn run(tier: Tier) -> i32 {
     let traces = total.distinct_count("event_traces");
     let outcomes = total.distinct_count("outcomes");
     let with_dev = total.get("executions_with_deviations");
+    let events_executed = total.get("events_executed");
     total.flush_into(&mut report);
     report.cover("states", traces);
-    report.cover("transitions", summary.executions * 8);
+    report.cover("transitions", events_executed);
     report.cover("traces_validated_against_impl", summary.executions);
     report.cover("evaluations", summary.executions);
     report.cover("distinct_nontrivial", traces);
@@ -802,7 +862,7 @@ pub fn run(tier: Tier) -> i32 {
         "rule",
         "every history of the operation alphabet (per block) x every set of environment deviations within the bound, \
          executed on a real in-process cluster through the public store handle; states = distinct event traces; \
-         transitions is an estimate (8 events per execution)",
+         transitions = events executed (operations, flushes, repairs, restarts, closing rounds)",
     );
     report.cover("blocks", J::Arr(blocks_json));
     report.cover("distinct_converged_results", outcomes);
@@ -841,6 +901,8 @@ pub fn replay(case: &J) -> i32 {
         .collect();
     let al_for_prelude = op_alphabet(n_nodes, &levels);
     let cfg = ExecCfg {
+        allow_unreachable_node: case.get("allow_unreachable_node").and_then(|v| v.as_bool()).unwrap_or(false),
+        skew_minutes: case.get("skew_minutes").and_then(|v| v.as_arr()).unwrap_or(&[]).iter().filter_map(|v| v.as_u64()).collect(),
         fine_grained: case.get("fine_grained").and_then(|v| v.as_bool()).unwrap_or(false),
         prelude: case.get("prelude").and_then(|v| v.as_arr()).unwrap_or(&[]).iter().filter_map(|o| al_for_prelude.iter().copied().find(|a| op_json(a).as_str() == o.as_str())).collect(),
         lose_all_direct: case.get("lose_all_direct").and_then(|v| v.as_bool()).unwrap_or(false),
